@@ -7,6 +7,7 @@ package harness
 
 import (
 	"container/heap"
+	"context"
 	"errors"
 	"fmt"
 	"net"
@@ -68,9 +69,23 @@ type Fault struct {
 }
 
 // InjectedErr is the unique sentinel returned by a fired fatal fault.
-type InjectedErr struct{ ID int }
+type InjectedErr struct {
+	ID int
+	// TimeoutLike: the failure is a timeout of the operating system's (ETIMEDOUT and friends): it answers
+	// Timeout() and matches the standard deadline errors, as net.OpError timeouts do
+	TimeoutLike bool
+}
 
-func (e *InjectedErr) Error() string { return fmt.Sprintf("injected fault #%d", e.ID) }
+func (e *InjectedErr) Error() string {
+	if e.TimeoutLike {
+		return fmt.Sprintf("injected fault #%d: i/o timeout", e.ID)
+	}
+	return fmt.Sprintf("injected fault #%d", e.ID)
+}
+func (e *InjectedErr) Timeout() bool { return e.TimeoutLike }
+func (e *InjectedErr) Is(t error) bool {
+	return e.TimeoutLike && (t == context.DeadlineExceeded || t == os.ErrDeadlineExceeded)
+}
 
 // World decides what the network does.
 type World interface {
@@ -211,7 +226,7 @@ func (w *Wire) fire(f *Fault) error {
 		return nil
 	default:
 		w.nFaultID++
-		e := &InjectedErr{ID: w.nFaultID}
+		e := &InjectedErr{ID: w.nFaultID, TimeoutLike: f.Class == "fatal-timeout"}
 		w.Fired = append(w.Fired, e)
 		return e
 	}
@@ -340,10 +355,11 @@ func (s *SimSink) WriteTo(buf []byte, dst netip.AddrPort) error {
 	w.log(ev)
 	if perr == nil && p != nil && !s.portChecked && (p.Kind == "udp" || p.Kind == "tcp-syn") {
 		// the source port is what tells concurrent runs apart: while a run's probes are on the wire the port must
-		// be held by a socket of this process, otherwise the kernel may hand it to the next run
-		s.portChecked = true
+		// be held by a socket of this process, otherwise the kernel may hand it to the next run. Asked at every
+		// probe (a reservation may lapse in the middle of a run) until the first problem.
 		if free := portIsFree(p.Kind, p.IP.Src, p.SPort); free {
-			w.PortProblems = append(w.PortProblems, fmt.Sprintf("handle %d sends %s probes from %s port %d, but no socket of the process holds that port (the kernel may hand it to a concurrent run)", s.idx, p.Kind, p.IP.Src, p.SPort))
+			s.portChecked = true
+			w.PortProblems = append(w.PortProblems, fmt.Sprintf("handle %d sends a %s probe (TTL %d, #%d of the handle) from %s port %d at %v, but no socket of the process holds that port (the kernel may hand it to a concurrent run)", s.idx, p.Kind, p.TTL, s.nWrite, p.IP.Src, p.SPort, w.since()))
 		}
 	}
 	var ss []Sched
